@@ -54,6 +54,12 @@ SAME = [
     ("def f(c):\n    x = c.items\n    for term in c.items:\n        term[1] *= 2\n    return x\n", "def f(c):\n    for term in c.items:\n        term[1] *= 2\n    return c.items\n"),
     ("def f(xs, pred):\n    yes_no = yes, no = [], []\n    for r in xs:\n        yes.append(r) if pred(r) else no.append(r)\n    return tuple(len(c) for c in yes_no)\n",
      "def f(xs, pred):\n    kept, dropped = [], []\n    for r in xs:\n        if pred(r):\n            kept.append(r)\n        else:\n            dropped.append(r)\n    return tuple(len(c) for c in (kept, dropped))\n"),
+    ("def f(d, g):\n    return [(g(v) if v != 1 else '') + g(k) for k, v in filter(itemgetter(1), d.items())]\n",
+     "def f(d, g):\n    def _helper1(k, v):\n        if v != 1:\n            c = g(v)\n        else:\n            c = ''\n        return c + g(k)\n    return [_helper1(k, v) for k, v in d.items() if v]\n"),
+    ("def f(kw, a, b):\n    for k, v in (('x', a), ('y', b)):\n        kw.setdefault(k, v)\n    return kw\n",
+     "def f(kw, a, b):\n    if 'x' not in kw:\n        kw['x'] = a\n    if 'y' not in kw:\n        kw['y'] = b\n    return kw\n"),
+    ("def f(s, toks, g):\n    out = []\n    for line in s.split('\\n'):\n        t = line.strip()\n        if t == '':\n            continue\n        if any(t.startswith(k) for k in toks):\n            continue\n        out.append(g(line))\n    return out\n",
+     "def f(s, toks, g):\n    return [g(r) for r in s.split('\\n') if r.strip() != '' and not any(r.strip().startswith(k) for k in toks)]\n"),
     ("def f(s):\n    return dict.fromkeys(s, 1)\n", "def f(s):\n    return {k: 1 for k in s}\n"),
     ("def f(s, g):\n    return OrderedDict([(k, g(k)) for k in s])\n", "def f(s, g):\n    d = OrderedDict()\n    for k in s:\n        d[k] = g(k)\n    return d\n"),
 ]
